@@ -26,6 +26,34 @@ var Root = func() string {
 	return "/verif"
 }()
 
+// OutRoot is where evidence and replay files go: Root unless VERIF_OUT is set
+// (runs against a scratch tree must not replace the evidence of /repo).
+var OutRoot = func() string {
+	if v := os.Getenv("VERIF_OUT"); v != "" {
+		return v
+	}
+	return Root
+}()
+
+// RepoDir is the tree under test: /repo unless VERIF_REPO is set (run.sh then
+// also provides VERIF_MODFILE, a go.mod whose replace directive points there).
+var RepoDir = func() string {
+	if v := os.Getenv("VERIF_REPO"); v != "" {
+		return v
+	}
+	return "/repo"
+}()
+
+// GoBuild returns the arguments of `go build` for the harness module,
+// honouring VERIF_MODFILE.
+func GoBuild(args ...string) []string {
+	out := []string{"build"}
+	if m := os.Getenv("VERIF_MODFILE"); m != "" {
+		out = append(out, "-modfile="+m)
+	}
+	return append(out, args...)
+}
+
 // ---------------------------------------------------------------------------
 // geometry / case descriptors (what a replay file contains)
 
@@ -493,7 +521,7 @@ func (r *Run) guard(w *Worker, fn func()) {
 			msg := fmt.Sprintf("panic: %v", p)
 			// first frame inside the library, for the report
 			for _, l := range strings.Split(string(buf), "\n") {
-				if strings.Contains(l, "/repo/") {
+				if strings.Contains(l, RepoDir+"/") {
 					msg += " at " + strings.TrimSpace(l)
 					break
 				}
@@ -631,9 +659,9 @@ func (r *Run) Finish() {
 	if ev.Assumptions == nil {
 		ev.Assumptions = []string{}
 	}
-	os.MkdirAll(filepath.Join(Root, "evidence"), 0o755)
+	os.MkdirAll(filepath.Join(OutRoot, "evidence"), 0o755)
 	b, _ := json.MarshalIndent(ev, "", " ")
-	if err := os.WriteFile(filepath.Join(Root, "evidence", r.Prop+".json"), b, 0o644); err != nil {
+	if err := os.WriteFile(filepath.Join(OutRoot, "evidence", r.Prop+".json"), b, 0o644); err != nil {
 		fmt.Fprintln(os.Stderr, "cannot write evidence:", err)
 		os.Exit(2)
 	}
@@ -650,11 +678,11 @@ func (r *Run) Finish() {
 	if r.nviol == 0 {
 		os.Exit(0)
 	}
-	os.MkdirAll(filepath.Join(Root, "replays"), 0o755)
+	os.MkdirAll(filepath.Join(OutRoot, "replays"), 0o755)
 	for i := range r.viols {
 		v := &r.viols[i]
 		name := fmt.Sprintf("%s-%010x.json", r.Prop, HashKey(v.Case.Key()))
-		path := filepath.Join(Root, "replays", name)
+		path := filepath.Join(OutRoot, "replays", name)
 		out := map[string]any{"property": r.Prop, "class": v.Class, "case": v.Case,
 			"expected": v.Expected, "got": v.Got,
 			"replay": "cd /verif && ./run.sh replay " + path}
